@@ -890,17 +890,26 @@ func (x *runner) chainSection(r *ev.R) {
 			if j, dup := table[digs[i]]; dup {
 				ha, ra := cs.at(int(j))
 				hb, rb := cs.at(i)
-				var df []string
-				if d := Diff(ha, hb); len(d) > 0 {
-					df = append(df, d...)
+				// fingerprint: the set of field names that differ (record positions only in the message)
+				var df, where []string
+				seenF := map[string]bool{}
+				for _, f := range Diff(ha, hb) {
+					seenF[f] = true
+					where = append(where, f)
 				}
 				for k := range ra {
 					for _, f := range Diff(ra[k], rb[k]) {
-						df = append(df, fmt.Sprintf("record%d.%s", k, f))
+						seenF[f] = true
+						where = append(where, fmt.Sprintf("record%d.%s", k, f))
+					}
+				}
+				for _, f := range Diff(Tuple{Epoch: 1, Term: 1, Fence: 1, Pred: Pred{1, 1, dig(1, 1)}, Cmd: cmd(1, 1), ID: 1, Setting: 1, Sync: true, TS: 1, From: "x", Client: "x", Pay: "x"}, Tuple{}) {
+					if seenF[f] { // canonical field order
+						df = append(df, f)
 					}
 				}
 				x.sink.add(finding{"C05:tail-digest-collision:" + strings.Join(df, "+"),
-					fmt.Sprintf("[%s] two different %d-record proposals #%d and #%d have the same tail digest %x (differ in %s)", x.api.Name, cs.n, j, i, digs[i][:], strings.Join(df, ", ")),
+					fmt.Sprintf("[%s] two different %d-record proposals #%d and #%d have the same tail digest %x (differ in %s)", x.api.Name, cs.n, j, i, digs[i][:], strings.Join(where, ", ")),
 					x.probe("chain", int(j), i, map[string]int{"space": ci})})
 				total["tail-digest-collisions"]++
 				continue
